@@ -11,9 +11,10 @@ namespace Unsized
 open Common
 
 theorem Fixed.induct' {P : Fixed → Prop} (pod : ∀ n, P (.pod n)) (bool : P .bool)
-    (cenum : ∀ k, P (.cenum k)) (record : ∀ fs, (∀ f ∈ fs, P f) → P (.record fs)) (f : Fixed) : P f :=
+    (cenum : ∀ k, P (.cenum k)) (record : ∀ fs, (∀ f ∈ fs, P f) → P (.record fs))
+    (podd : ∀ d, P (.podd d)) (f : Fixed) : P f :=
   Fixed.rec (motive_1 := P) (motive_2 := fun fs => ∀ f ∈ fs, P f)
-    pod bool cenum (fun fs ih => record fs ih)
+    pod bool cenum (fun fs ih => record fs ih) podd
     (by intro f h; cases h)
     (fun hd tl ih1 ih2 f h => by
       cases h with
